@@ -128,6 +128,32 @@ def scanWith (order : List String) (w : Wiring) : Inv :=
     eco := if w.hasKey ecoRow.stateKey then
              some ⟨ecoRow.id, ecoRow.name, ecoRow.keypad, ecoRow.stateKey, ecoRow.cls, none, none⟩ else none }
 
+/-! the facade OBJECT across several scans (the blocking client calls `_on_connected` -> `scan_outputs` again on the same
+facade after every reconnect): each inventory list is either rebuilt by assignment or grown in place
+(`Generated.syncScanUpdates` / `asyncScanUpdates`, read from the source) -/
+
+def assigned (ups : List (String × Bool)) (name : String) : Bool := (ups.find? (·.1 == name)).map (·.2) == some true
+
+def upd {α : Type} (ups : List (String × Bool)) (name : String) (old new : List α) : List α :=
+  if assigned ups name then new else old ++ new
+
+/-- one more scan on an object that already holds `old` -/
+def rescan (ups : List (String × Bool)) (old : Inv) (fresh : Inv) : Inv :=
+  { userDevices := upd ups "actual_user_devices" old.userDevices fresh.userDevices
+    pumps := upd ups "_pumps" old.pumps fresh.pumps
+    blowers := upd ups "_blowers" old.blowers fresh.blowers
+    lights := upd ups "_lights" old.lights fresh.lights
+    sensors := upd ups "_sensors" old.sensors fresh.sensors
+    binarySensors := upd ups "_binary_sensors" old.binarySensors fresh.binarySensors
+    eco := fresh.eco }
+
+def emptyInv : Inv := ⟨[], [], [], [], [], [], none⟩
+
+/-- the object after `n + 1` scans of the same wiring -/
+def scans (ups : List (String × Bool)) (fresh : Inv) : Nat → Inv
+  | 0 => rescan ups emptyInv fresh
+  | n + 1 => rescan ups (scans ups fresh n) fresh
+
 /-- **`GeckoAsyncFacade._scan_outputs`** -/
 def scanOutputs (w : Wiring) : Inv := scanWith w.actualDevices w
 
